@@ -9,6 +9,7 @@ others are created automatically or when calling :py:meth:`DiffX.add_change`
 or :py:meth:`DiffXChangeSection.add_file`.
 """
 
+import codecs
 import io
 import logging
 from copy import deepcopy
@@ -744,10 +745,21 @@ class DiffXFileSection(ContainerOptionsMixin,
                 encoding=self.diff_encoding)
 
         try:
-            hunks_info = get_unified_diff_hunks(
-                split_lines(data=self.diff,
-                            newline=newline),
-                ignore_garbage=True)
+            lines = split_lines(data=self.diff,
+                                newline=newline)
+
+            if self.diff_encoding:
+                # The hunk parser works on ASCII-compatible byte strings.
+                lines = [
+                    _line.decode(self.diff_encoding).encode('utf-8')
+                    for _line in lines
+                ]
+
+                if lines and lines[0].startswith(codecs.BOM_UTF8):
+                    lines[0] = lines[0][len(codecs.BOM_UTF8):]
+
+            hunks_info = get_unified_diff_hunks(lines,
+                                                ignore_garbage=True)
         except Exception as e:
             logger.error('Error parsing diff hunks for %r: %s',
                          self, e)
